@@ -636,7 +636,8 @@ func TestTableNested(t *testing.T) {
 	store := ir.Store{{UID: ir.Ent("T0", "a"), Parents: []ir.Value{ir.Ent("T1", "g")}}, {UID: ir.Ent("T1", "g")}, {UID: ir.Ent("T1", "r")}}
 	rec1 := ir.Rec(ir.F("a", ir.Long(1)))
 	baseCtx := func(e, xa, da ir.Value) ir.Value {
-		return ir.Rec(ir.F("a", ir.Long(1)), ir.F("e", e), ir.F("x", ir.Rec(ir.F("a", xa))), ir.F("d", ir.Rec(ir.F("a", da))))
+		// "s" holds the same (possibly unknown) entity nested inside a set value
+		return ir.Rec(ir.F("a", ir.Long(1)), ir.F("e", e), ir.F("s", ir.Set(e, ir.Ent("T1", "r"))), ir.F("x", ir.Rec(ir.F("a", xa))), ir.F("d", ir.Rec(ir.F("a", da))))
 	}
 	P, R, C := ir.Var("principal"), ir.Var("resource"), ir.Var("context")
 	one := ir.Lit(ir.Long(1))
@@ -654,6 +655,12 @@ func TestTableNested(t *testing.T) {
 		ir.Bin(ir.OpOr, ir.Bin(ir.OpEq, ir.Access(ir.Access(C, "d"), "a"), ir.Lit(ir.Long(2))), ir.IsIn(P, "T0", ir.Access(C, "e"))),
 		ir.Bin(ir.OpEq, C, ir.Lit(baseCtx(ir.Ent("T1", "g"), ir.Long(1), ir.Long(1)))),
 		ir.IsIn(P, "T0", ir.SetE(ir.Access(C, "e"))),
+		// the right operand is a set *value* holding the unknown (not a set literal expression)
+		ir.IsIn(P, "T0", ir.Access(C, "s")),
+		ir.Un(ir.OpNot, ir.IsIn(P, "T0", ir.Access(C, "s"))),
+		ir.Bin(ir.OpIn, P, ir.Access(C, "s")),
+		ir.Bin(ir.OpContains, ir.Access(C, "s"), ir.Lit(ir.Ent("T1", "g"))),
+		ir.Bin(ir.OpAnd, ir.Is(P, "T0"), ir.Bin(ir.OpContainsAny, ir.Access(C, "s"), ir.SetE(ir.Lit(ir.Ent("T1", "g")), ir.Lit(ir.Ent("T0", "zz"))))),
 	}
 	pc := []ir.Value{ir.Ent("T0", "a"), ir.Ent("T1", "g")}
 	ec := []ir.Value{ir.Ent("T1", "g"), ir.Ent("T0", "zz")}
@@ -721,6 +728,10 @@ func TestTableNested(t *testing.T) {
 										for _, d := range dims {
 											comp[d.name] = d.cands[k%len(d.cands)]
 											k /= len(d.cands)
+										}
+										// the ignored entity also sits inside the set value context.s: same value there
+										if v, ok := comp["ignore:context.e"]; ok {
+											comp["ignore:context.s[0]"] = v
 										}
 										c.Completions = append(c.Completions, comp)
 									}
